@@ -178,7 +178,7 @@ func (k *kase) runReadFields() {
 	if k.IFSSet {
 		env = expand.ListEnviron("IFS=" + k.ifs)
 	}
-	k.RFN = []int{-1, 0, 1, 2, 3, 5, -7}
+	k.RFN = []int{-1, []int{0, -7, 4}[k.ID%3], []int{1, 2, 3, 5, 1, 2}[k.ID%6]}
 	for _, n := range k.RFN {
 		var got []string
 		cfg := &expand.Config{Env: env}
